@@ -1280,6 +1280,66 @@ func (l *Lang) PosSpan(shapes map[string]*Shape) *report.RuleResult {
 	return res
 }
 
+// PosDistinct: every node an action builds holds a position object of its own: the result of its own call
+// of the position builder (one call hands out one object of the pool), never the result of a call that
+// another node of the same action already holds, and never the Position of an existing node. Two nodes
+// that share a *Position are two names for one pool slot: writing through one changes the other.
+func (l *Lang) PosDistinct(shapes map[string]*Shape) *report.RuleResult {
+	res := report.NewResult("pos-distinct")
+	g := l.L.G
+	for n := 1; n < len(l.Actions); n++ {
+		a := l.Actions[n]
+		if len(a.Undec) > 0 {
+			continue
+		}
+		pkey := l.L.Label + ":" + g.Key(a.Prod)
+		pos := l.actionPos(a)
+		bad := map[string]string{}
+		nobj := 0
+		for _, p := range a.Paths {
+			w := l.contents(p)
+			builtAt := map[token.Pos]*Obj{}
+			for _, o := range w.order {
+				if isCarrier(o.TName) {
+					continue
+				}
+				pv, has := o.Fields["Position"]
+				if !has {
+					continue
+				}
+				switch x := pv.(type) {
+				case PosV:
+					nobj++
+					if !x.At.IsValid() {
+						continue
+					}
+					if first, dup := builtAt[x.At]; dup && first != o {
+						bad[fmt.Sprintf("%s/%s", pkey, o.TName)] = fmt.Sprintf("%s and %s both hold the result of one call of %s: the two nodes share one position object", first.TName, o.TName, x.Method)
+					} else {
+						builtAt[x.At] = o
+					}
+				case Nil:
+				default:
+					nobj++
+					bad[fmt.Sprintf("%s/%s", pkey, o.TName)] = fmt.Sprintf("%s takes %s as its Position instead of a position built for it: the object is shared with its owner", o.TName, pv)
+				}
+			}
+		}
+		if nobj == 0 {
+			continue
+		}
+		res.Count("nodes", nobj)
+		if len(bad) == 0 {
+			res.OK(pkey, pos, a.Prod.String(), fmt.Sprintf("%d positions, each the result of its own builder call", nobj))
+			continue
+		}
+		for _, k := range keysOfS(bad) {
+			res.Bad(k, pos, a.Prod.String(), bad[k])
+		}
+	}
+	return res
+}
+
 func keyMatch(k, b Key) bool { return k.I == b.I && (k.J == 0 || b.J == 0 || k.J == b.J) }
 
 // checkSpan: the start boundary must be the first member that is not known to
